@@ -359,7 +359,8 @@ func init() {
 			env.BaseRelays = 1000 // a claim of 5 relays is within P1's allowance
 			env.Setup = append(append([]TxSpec{}, env.Setup...), TxSpec{Kind: "node_stake", Signer: "N3", Args: map[string]string{"node": "N3", "value": "1000000", "output": "N3", "chains": "0001"}})
 			menu := []BlockSpec{{Absent: []string{"N1"}}, {Absent: []string{"N3"}}, {Evidence: []string{"N3"}}, blk(tx("node_unjail", "N1", "node", "N1", "as", "N1")),
-				blk(tx("node_stake", "N2", "node", "N2", "value", "3000000", "output", "N2", "chains", "0002")), blk(tx("node_unstake", "N1")), {TimeJump: 2}, {}}
+				blk(tx("node_stake", "N2", "node", "N2", "value", "3000000", "output", "N2", "chains", "0002")), blk(tx("node_unstake", "N1")), {TimeJump: 2}, {},
+				blk(tx("node_stake", "N2", "node", "N2", "value", "2500000", "output", "N2", "chains", "0001+0002"))} // an edit that keeps the chain
 			depth := 4
 			if c.Tier == "thorough" {
 				depth = 5
